@@ -23,7 +23,10 @@ func selfTest(pid, repo, verif string) map[string]any {
 	var jobs []job
 	seeds, _ := filepath.Glob(filepath.Join(verif, "seeded", "*", "patch.diff"))
 	for _, s := range seeds {
-		jobs = append(jobs, job{"seeded", filepath.Base(filepath.Dir(s)), s})
+		// the changes seeded against THIS property (every check x every change is tools/seed_matrix.sh's job)
+		if name := filepath.Base(filepath.Dir(s)); strings.Contains(name+"-", pid+"-") {
+			jobs = append(jobs, job{"seeded", name, s})
+		}
 	}
 	eqs, _ := filepath.Glob(filepath.Join(verif, "equiv", "*.patch"))
 	for _, s := range eqs {
@@ -106,7 +109,7 @@ func selfTest(pid, repo, verif string) map[string]any {
 		}
 	}
 	return map[string]any{
-		"what":                             "this property's quick check run against every seeded change and every behaviour-preserving edit, each on its own scratch copy (reported only; never affects the exit status)",
+		"what":                             "this property's quick check run against every change seeded against this property and every behaviour-preserving edit, each on its own scratch copy (reported only; never affects the exit status)",
 		"seeded_changes":                   seeded,
 		"seeded_reported_by_this_check":    detected,
 		"behaviour_preserving_edits":       equiv,
